@@ -9,13 +9,20 @@ static inline cstring cstring__empty(void) { cstring s; s.len = 0; s.id = 0; ret
   static inline T *opt_##N##__value(struct opt_##N *o) { __CPROVER_assert(o->has, "optional: value()/operator* on an empty optional"); return &o->val; }
 
 /* abstract sequence: size, one watched element (index wi, value wv); any other element is arbitrary */
-#define DECL_SEQ(N, T) struct seq_##N { unsigned long n; unsigned long wi; T wv; T cur; }; \
-  static inline unsigned long seq_##N##__size(struct seq_##N *s) { return s->n; } \
-  static inline T *seq_##N##__at(struct seq_##N *s, unsigned long i) { \
+/* SEQ_INV_<N>(p): representation invariant of every stored element (default: none); assumed for elements read, asserted for elements stored */
+#define DECL_SEQ_(P, N, T) struct P##N { unsigned long n; unsigned long wi; T wv; T cur; }; \
+  static inline unsigned long P##N##__size(struct P##N *s) { return s->n; } \
+  static inline T *P##N##__at(struct P##N *s, unsigned long i) { \
     __CPROVER_assert(i < s->n, "sequence element access in bounds"); \
-    if (i == s->wi) return &s->wv; T fresh; s->cur = fresh; return &s->cur; } \
-  static inline void seq_##N##__push_back(struct seq_##N *s, T *v) { if (g_exc) return; if (s->n == s->wi) s->wv = *v; s->n++; } \
-  static inline void seq_##N##__clear(struct seq_##N *s) { s->n = 0; } \
+    if (i == s->wi) return &s->wv; T fresh; __CPROVER_assume(SEQ_INV_##N(&fresh)); s->cur = fresh; return &s->cur; } \
+  static inline void P##N##__push_back(struct P##N *s, T *v) { if (g_exc) return; \
+    __CPROVER_assert(SEQ_INV_##N(v), "stored element satisfies the sequence's element invariant"); if (s->n == s->wi) s->wv = *v; s->n++; } \
+  static inline void P##N##__clear(struct P##N *s) { s->n = 0; }
+#define DECL_SEQ(N, T) DECL_SEQ_(seq_, N, T) \
   static inline struct seq_##N seq_##N##__empty(void) { struct seq_##N s; s.n = 0; return s; }
+/* A7 BlockTable<T> as seen by CdnsBlock: a sequence in index order (its own implementation: bt.* units) */
+#define DECL_BT(N, T) DECL_SEQ_(bt_, N, T) \
+  static inline unsigned long BlockTable_##N##__size(struct bt_##N *s) { return s->n; }
+#define DECL_UMAP(N, K, V) DECL_SEQ_(umap_, N, struct pair_##N)
 #define DECL_PAIR(N, A, B) struct pair_##N { A first; B second; };
 #endif
